@@ -200,6 +200,9 @@ def coverage_report(d, exe, cases_path):
         rng = [n for n in sorted(ls) if a[0] <= n < b[0] and ls[n][0] is not None]
         miss = [n for n in rng if ls[n][0] == 0 and "Bug in Gudhi" not in ls[n][1]]
         rep[key] = {"executable_lines": len(rng), "executed": len(rng) - len(miss), "not_executed_lines": miss[:40]}
+    rep["note"] = ("line coverage measured with gcov on an instrumented copy of the case runner; the only lines of the line "
+                   "routine the cases cannot execute are 'case 1: goto state1down' under the label down (dead code: every "
+                   "jump to down leaves an even number >= 2 of elements in data)")
     return rep
 
 
